@@ -5,11 +5,13 @@
 package c01
 
 import (
+	"context"
 	"encoding/json"
 	"fmt"
 	"sort"
 	"strings"
 	"testing"
+	"time"
 
 	"github.com/vektah/gqlparser/v2"
 	gast "github.com/vektah/gqlparser/v2/ast"
@@ -100,6 +102,9 @@ func judgeText(f *family, lab *fedlab.Lab, q, opName string, opVars map[string]a
 		if (opName == "" || o.Name == opName) && o.Operation == gast.Mutation {
 			kind = "Mutation"
 		}
+		if (opName == "" || o.Name == opName) && o.Operation == gast.Subscription {
+			return judgeSubscription(f, lab, q, opName, opVars, doc, o)
+		}
 	}
 	var vj []byte
 	if len(opVars) > 0 {
@@ -134,6 +139,71 @@ func judgeText(f *family, lab *fedlab.Lab, q, opName string, opVars map[string]a
 	}
 	outcome = fmt.Sprintf("reqs=%d err=%v", len(reqs), gwHasErr)
 	return outcome, fails
+}
+
+// judgeSubscription: every update frame the gateway delivers must equal the
+// reference executor's answer for that upstream event.
+func judgeSubscription(f *family, lab *fedlab.Lab, q, opName string, opVars map[string]any, doc *gast.QueryDocument, op *gast.OperationDefinition) (string, []caseResult) {
+	var vj []byte
+	if len(opVars) > 0 {
+		vj, _ = json.Marshal(opVars)
+	}
+	rootField := ""
+	for _, sel := range op.SelectionSet {
+		if fd, ok := sel.(*gast.Field); ok && rootField == "" {
+			rootField = fd.Name
+		}
+	}
+	if rootField == "" {
+		return "subscription-without-plain-root-field", nil
+	}
+	for _, sel := range op.SelectionSet {
+		// @skip/@include at the root of a subscription: later editions of the
+		// specification forbid it, the October 2021 text is silent - not judged
+		if fd, ok := sel.(*gast.Field); ok && (fd.Directives.ForName("skip") != nil || fd.Directives.ForName("include") != nil) {
+			return "not-judged: skip/include on a subscription root field", nil
+		}
+		if _, ok := sel.(*gast.Field); !ok {
+			return "not-judged: fragment at the root of a subscription", nil
+		}
+	}
+	ctx, cancel := context.WithTimeout(context.Background(), 30*time.Second)
+	defer cancel()
+	w, reqs, err := lab.ExecStream(ctx, q, opName, vj)
+	if err != nil {
+		return "engine-error", []caseResult{{"planning such an operation never fails", "Execute returned an error (subscription)", firstLine(err.Error())}}
+	}
+	var fails []caseResult
+	n := f.u.Events(rootField)
+	if len(w.Frames) != n || w.Completes != 1 {
+		return "frames", []caseResult{{"gateway data equals the data of a single server owning all the data", "number of subscription updates", fmt.Sprintf("%d frames, %d completes for %d upstream events: %v", len(w.Frames), w.Completes, n, w.Frames)}}
+	}
+	for i, fr := range w.Frames {
+		vars := map[string]any{}
+		for k, v := range opVars {
+			vars[k] = v
+		}
+		ref := refexec.Execute(f.schema, doc, fedlab.Mono{U: f.u, Event: i}, refexec.Options{OperationName: opName, Variables: vars, Root: fedlab.RootObj("Subscription")})
+		gw, perr := decode([]byte(fr))
+		if perr != nil {
+			fails = append(fails, caseResult{"response is a JSON value", "subscription frame", fr})
+			continue
+		}
+		if g, r := refexec.Canon(gw["data"]), refexec.Canon(ref.Data); g != r {
+			fails = append(fails, caseResult{"gateway data equals the data of a single server owning all the data", "subscription update", fmt.Sprintf("event %d\ngateway: %s\nreference: %s", i, g, r)})
+			break
+		}
+		if _, has := gw["errors"]; has != (len(ref.Errors) > 0) {
+			fails = append(fails, caseResult{"gateway reports errors exactly when the single server would", fmt.Sprintf("subscription update: gateway errors=%v reference errors=%v", has, len(ref.Errors) > 0), fr})
+			break
+		}
+	}
+	for _, r := range reqs {
+		for _, p := range r.Problems {
+			fails = append(fails, caseResult{"every subgraph request is a valid operation of that subgraph asking only for fields it owns", problemSite(p), p + "\nrequest: " + r.Query})
+		}
+	}
+	return fmt.Sprintf("sub frames=%d reqs=%d", len(w.Frames), len(reqs)), fails
 }
 
 func suffixOf(name string) string {
@@ -318,6 +388,9 @@ func nearFamily(run *vk.Run, name string, s *fedlab.Supergraph, u *fedlab.Univer
 	f.ops = fedlab.GenOps(fedlab.GenConfig{Schema: f.schema, Widths: vk.Pick(run, widthsQ, widthsT), ArgMenu: menu}, "query")
 	if f.schema.Mutation != nil {
 		f.ops = append(f.ops, fedlab.GenOps(fedlab.GenConfig{Schema: f.schema, Widths: widthsQ, ArgMenu: menu}, "mutation")...)
+	}
+	if f.schema.Subscription != nil {
+		f.ops = append(f.ops, fedlab.GenOps(fedlab.GenConfig{Schema: f.schema, Widths: widthsQ, ArgMenu: menu}, "subscription")...)
 	}
 	return f
 }
